@@ -1,8 +1,8 @@
 (** C14 — the store actor honours open/close counting and the sync switch.
     The model processes one request completely before the next; FIFO delivery of requests and
     the single-threaded loop are runtime facts outside the model (PARTIAL for concurrent clients:
-    the correspondence runs drive one client). *)
-From ID Require Import Model.Actor Proofs.ActorFacts.
+    the correspondence runs drive one client, and two clients at once whose replies must admit an order). *)
+From ID Require Import Model.Actor Proofs.ActorFacts Proofs.HandleFacts.
 
 Theorem C14_closed_ops_fail_noop : forall ks EH MF CAP mss split s o ns,
   op_needs_open o = Some ns -> aget s ns = None ->
@@ -41,9 +41,28 @@ Theorem C14_close_reports_closed : forall ks EH MF CAP mss split s ns,
     end.
 Proof. exact close_reports_closed. Qed.
 
+(** every request, on every state: the handles held for every document move exactly as the abstract
+    counter prescribes -- an acknowledged open adds one, a close or drop releases one while there is
+    one, nothing else changes any document's count -- and an open document never has zero handles *)
+Theorem C14_step_counts : forall ks EH MF CAP mss split s o, HPos s ->
+  let '(s', r, _) := astep ks EH MF CAP mss split s o in
+  (forall x, handles s' x = hstep (handles s) o r x) /\ HPos s'.
+Proof. exact step_handles. Qed.
+
+(** every history from a freshly spawned actor (any requests, any documents, any length): the
+    handles are the counter of the acknowledged history, and the document is open -- usable --
+    exactly while the counter is positive (closed: [C14_closed_ops_fail_noop]) *)
+Theorem C14_history_counter : forall ks EH MF CAP mss split T ops,
+  let '(s', tr) := arun ks EH MF CAP mss split (ainit T) ops in
+  forall x, handles s' x = hcount_from (fun _ => 0) tr x /\
+            (aget s' x = None <-> hcount_from (fun _ => 0) tr x = 0).
+Proof. exact history_counter. Qed.
+
 Print Assumptions C14_closed_ops_fail_noop.
 Print Assumptions C14_sync_gate.
 Print Assumptions C14_open_adds_handle_sync_sticky.
 Print Assumptions C14_open_first_handle.
 Print Assumptions C14_open_unknown_fails.
 Print Assumptions C14_close_reports_closed.
+Print Assumptions C14_step_counts.
+Print Assumptions C14_history_counter.
